@@ -133,6 +133,15 @@ def items(tier):
                     o = {str(i): {"k": True, "j": "v w"} for i in procs[-1:]}
                     out.append({"case": {"g": g, "kinds": kinds, "pars": [k in ("cmd", "exp") and jobs > 1 for k in kinds], "jobs": jobs,
                                          "pkgs": list(pk), "cached": cached, "args": a, "options": o, "empty_index": True}, "bound": 0})
+    # cached dependency with several recorded versions: dependents receive the selected (newest at equal distance) one
+    for g in rungrid.graphs_upto((2, 3)):
+        n = len(g)
+        for kinds in (["cmd"] + ["exp"] * (n - 1), ["combine"] + ["exp"] * (n - 1), ["exp"] * n):
+            exps = [i for i in range(1, n) if kinds[i] == "exp"]
+            for git in (False, True):
+                for commit in ((None,) if not git else (None, "c1" * 20, "c2" * 20)):
+                    out.append({"case": {"g": g, "kinds": kinds, "pars": [False] * n, "jobs": 1, "git": git,
+                                         "cached": {str(e): commit for e in exps}, "two_versions": True, "empty_index": True}, "bound": 0})
     # (b) argument / option serialisation on a single task
     arglists = [[]] + [[x] for x in PRIMS] + [[x, y] for x in PRIMS for y in PRIMS]
     optdicts = [{}] + [{"k": x} for x in PRIMS] + [{"k": x, "j2": y} for x in PRIMS for y in PRIMS] + [{"j2": y, "k": x} for x in PRIMS[:3] for y in PRIMS[:3]]
